@@ -7,7 +7,7 @@ import tempfile
 import numpy
 from hypothesis import strategies as st
 
-from pbt import lattice
+from pbt import exact, lattice
 from pbt.core import call, draw_tz, workdir
 
 PROP = "C14"
@@ -71,7 +71,10 @@ def check_case(ctx, case):
     L = None
     if case.get("region"):
         L = lattice.Lattice(case["region"])
-        ob = call(L.build, "from_origins")
+        # "region_mags": the region carries magnitude bins (a space-magnitude region, as forecast.region is); the catalog is not cut at
+        # the first edge - the round trips are those of the catalog, whatever the bins
+        rm = case.get("region_mags")
+        ob = call(L.build, "from_origins", magnitudes=numpy.array(exact.decimal_grid(rm["start"], rm["step"], rm["n"])) if rm else None)
         if not ob.ok:
             ctx.unexpected(ob, "build_region")
             return
@@ -227,6 +230,8 @@ def cases(draw):
             x0, y0 = L._coord(L.lon0, i), L._coord(L.lat0, j)
             e[3] = x0 if fx == 0 else x0 + fx * L.fdh
             e[2] = y0 if fy == 0 else y0 + fy * L.fdh
+        if draw(st.booleans()):
+            c["region_mags"] = {"start": draw(st.sampled_from(["4.95", "2.5", "0.0"])), "step": draw(st.sampled_from(["0.1", "0.5"])), "n": draw(st.integers(1, 5))}
     if draw(st.integers(0, 5)) == 0:
         c["append_to_empty"] = True
     if draw(st.integers(0, 3)) == 0:
